@@ -48,6 +48,8 @@ def build_harness(profile="dbg", features=None):
         return _built[key]
     if ALT_REPO != "/repo":
         return _build_alt(profile, features, key)
+    if os.environ.get("VERIF_COV"):
+        return _build_cov(profile, features, key)
     lock = os.path.join(HARNESS, "Cargo.lock")
     if not os.path.exists(lock):
         shutil.copy("/repo/Cargo.lock", lock)
@@ -67,6 +69,27 @@ def build_harness(profile="dbg", features=None):
         raise ToolError("harness build failed (profile %s)" % profile)
     exe = os.path.join(HARNESS, tdir, "release" if profile == "rel" else "debug", "wfh")
     log("[build] wfh %s %s %.1fs" % (profile, features or "", time.time() - t0))
+    _built[key] = exe
+    return exe
+
+
+def _build_cov(profile, features, key):
+    """Development aid only (bin/coverage): the same harness built by the nightly toolchain with source-based coverage
+    instrumentation, into VERIF_COV/target-*; the registered commands never set VERIF_COV."""
+    base = os.environ["VERIF_COV"]
+    tdir = os.path.join(base, "target-%s-%s" % (profile, "-".join(features or ()) or "plain"))
+    cmd = ["cargo", "+nightly", "build", "--offline", "--quiet", "--target-dir", tdir]
+    if features:
+        cmd += ["--features", ",".join(features)]
+    if profile == "rel":
+        cmd.append("--release")
+    env = dict(os.environ, CARGO_NET_OFFLINE="true",
+               RUSTFLAGS="-C instrument-coverage --cfg winterfell_verif --check-cfg cfg(winterfell_verif)")
+    p = subprocess.run(cmd, cwd=HARNESS, env=env, stdout=subprocess.PIPE, stderr=subprocess.STDOUT, text=True)
+    if p.returncode != 0:
+        sys.stdout.write(p.stdout[-6000:])
+        raise ToolError("coverage harness build failed (profile %s)" % profile)
+    exe = os.path.join(tdir, "release" if profile == "rel" else "debug", "wfh")
     _built[key] = exe
     return exe
 
